@@ -17,7 +17,7 @@ LEVEL_NOTE = "trusted: the reference ledger and the generator's value arithmetic
 
 
 def runs(tier, seed):
-    return [cc.make_run("value", tier, 48, 1000)]
+    return [cc.make_run("value", tier, 32, 480)]
 
 
 def check(rec, st):
